@@ -1,0 +1,96 @@
+//go:build verif
+
+package vcode
+
+// Contracts for govc (contract-based deductive verification, see /verif/DESIGN.md).
+// Comments only; compiled only with the build tag `verif`.
+
+//@ arith int
+//@ property C19
+//@ assumption send/verify counters of cached entries stay below 2^62
+//@ assumption the clock does not advance within one call (time.Now() reads the ghost nowNano); time differences do not overflow int64; the package error values are distinct non-nil values
+//
+//@ ghost lastKey interface{}
+//@ pure keyOf(a string, p string) string = sprintf("%s-%s", any(a), any(p), nil)
+//@ pure since(t time.Time, u time.Time) int64 = spec_unixnano(t) - spec_unixnano(u)
+//@ pure verrs() bool = ErrSendTooFreq != nil && ErrVerifyCodeRetryLimit != nil && ErrSendCountLimit != nil && ErrVerifyCodeNotExist != nil && ErrVerifyCodeTimeout != nil && ErrVerifyCodeNotMatch != nil && ErrVerifyCodeHashNotMatch != nil
+//
+// The cache facade: every access records the key it was asked for (ghost lastKey); results are arbitrary.
+//@ func CacheModule.Get
+//@   trusted cache facade (user supplied or simpleCache): records the key, returns anything
+//@   ensures lastKey == key && forall x *vCache :: { x.sendCount } x.sendCount < 4611686018427387904 && x.verifyCount < 4611686018427387904
+//@   modifies lastKey
+//@ func CacheModule.Peek
+//@   trusted cache facade: records the key, returns anything
+//@   ensures lastKey == key && forall x *vCache :: { x.sendCount } x.sendCount < 4611686018427387904 && x.verifyCount < 4611686018427387904
+//@   modifies lastKey
+//@ func CacheModule.Set
+//@   trusted cache facade: records the key
+//@   ensures lastKey == key && forall x *vCache :: { x.sendCount } x.sendCount < 4611686018427387904 && x.verifyCount < 4611686018427387904
+//@   modifies lastKey
+//@ func funcval fn
+//@   trusted bound method value of the cache facade (Get or Peek)
+//@   ensures lastKey == key && forall x *vCache :: { x.sendCount } x.sendCount < 4611686018427387904 && x.verifyCount < 4611686018427387904
+//@   modifies lastKey
+//@ func smsModule.SendCode
+//@   trusted SMS gateway: any result, no effect on the verified state
+//@   modifies
+//
+//@ func sender.fetchCache
+//@   requires s.cacheM != nil
+//@   ensures lastKey == any(key) && forall x *vCache :: { x.sendCount } x.sendCount < 4611686018427387904 && x.verifyCount < 4611686018427387904
+//@   modifies lastKey
+//
+//@ func sender.SendSMSCode
+//@   requires s.cacheM != nil && s.Config != nil && s.sms != nil && verrs() && s.CodeLen >= 0
+//@   ensures #key lastKey == any(keyOf(areaCode, phone))
+//@   modifies lastKey, vCache.counterTime, vCache.setTime, vCache.sendCount, vCache.verifyCount, vCache.code, vCache.hash, region($alloc)
+//
+//@ func sender.VerifySMSCode
+//@   requires s.cacheM != nil && s.Config != nil && verrs()
+//@   ensures #key lastKey == any(keyOf(areaCode, phone))
+//@   modifies lastKey, vCache.verifyCount
+//
+//@ func sender.checkSend
+//@   requires c != nil && s.Config != nil && verrs()
+//@   ensures #toofreq since(now, old(c.setTime)) < int64(s.MinInterval) ==> result == ErrSendTooFreq && c.sendCount == old(c.sendCount) && c.counterTime == old(c.counterTime)
+//@   ensures #newwindow since(now, old(c.setTime)) >= int64(s.MinInterval) && since(now, old(c.counterTime)) > int64(s.CounterDuration) ==> result == nil && c.sendCount == 0 && c.counterTime == now
+//@   ensures #limit since(now, old(c.setTime)) >= int64(s.MinInterval) && since(now, old(c.counterTime)) <= int64(s.CounterDuration) && old(c.sendCount) > s.MaxCount ==> result == ErrSendCountLimit && c.sendCount == old(c.sendCount)
+//@   ensures #accept since(now, old(c.setTime)) >= int64(s.MinInterval) && since(now, old(c.counterTime)) <= int64(s.CounterDuration) && old(c.sendCount) < s.MaxCount ==> result == nil && c.sendCount == old(c.sendCount) && c.counterTime == old(c.counterTime)
+//@   ensures #untouched c.setTime == old(c.setTime) && c.verifyCount == old(c.verifyCount) && c.code == old(c.code) && c.hash == old(c.hash)
+//@   ensures #countframe c.sendCount == old(c.sendCount) || c.sendCount == 0
+//@   modifies c.counterTime, c.sendCount
+//
+//@ func sender.checkVerify
+//@   requires c != nil && s.Config != nil && verrs() && c.verifyCount < 9223372036854775807
+//@   ensures #counted c.verifyCount == old(c.verifyCount) + 1
+//@   ensures #ok result == nil <==> (c.verifyCount <= s.MaxVerifyCount && c.code == code && c.hash == hash && nowNano - spec_unixnano(c.setTime) <= int64(s.TTL))
+//@   ensures #retrylimit c.verifyCount > s.MaxVerifyCount ==> result == ErrVerifyCodeRetryLimit
+//@   ensures #wrongcode c.verifyCount <= s.MaxVerifyCount && c.code != code ==> result == ErrVerifyCodeNotMatch
+//@   ensures #wronghash c.verifyCount <= s.MaxVerifyCount && c.code == code && c.hash != hash ==> result == ErrVerifyCodeHashNotMatch
+//@   ensures #expired c.verifyCount <= s.MaxVerifyCount && c.code == code && c.hash == hash && nowNano - spec_unixnano(c.setTime) > int64(s.TTL) ==> result == ErrVerifyCodeTimeout
+//@   ensures #untouched c.code == old(c.code) && c.hash == old(c.hash) && c.setTime == old(c.setTime) && c.sendCount == old(c.sendCount)
+//@   modifies c.verifyCount
+//
+//@ func vCache.updateSend
+//@   requires c != nil && c.sendCount < 9223372036854775807
+//@   ensures c.code == code && c.setTime == now && c.sendCount == old(c.sendCount) + 1 && c.verifyCount == 0 && c.counterTime == old(c.counterTime)
+//@   modifies c.code, c.hash, c.setTime, c.sendCount, c.verifyCount
+//@ func vCache.updateVerify
+//@   requires c != nil && c.verifyCount < 9223372036854775807
+//@   ensures c.verifyCount == old(c.verifyCount) + 1
+//@   modifies c.verifyCount
+//@ func vCache.refresh
+//@   requires c != nil
+//@   ensures c.counterTime == now && c.sendCount == 0
+//@   modifies c.counterTime, c.sendCount
+//@ func newSenderCache
+//@   ensures result != nil && isfresh(result) && result.counterTime == now && result.sendCount == 0 && result.verifyCount == 0
+//@   modifies region($alloc)
+//
+//@ func sender.genCode
+//@   requires s.Config != nil && s.CodeLen >= 0
+//@   ensures #reallen !s.Mock ==> len(result) == s.CodeLen
+//@   modifies
+//@   loop 1
+//@     invariant 0 <= i
